@@ -167,7 +167,8 @@ def lru_rule(ctx: Ctx) -> None:
     got = [rfl.canon(x.value) for x in rfl.returns]
     its = ("range(len(P0.lru))", "range(P0.associativity)")
     if young == "back":
-        elts = ("P0.lru.index(_c0)",)
+        # position of block i in the order list: list.index, or a lookup in the inverse permutation built from enumerate
+        elts = ("P0.lru.index(_c0)", "DictComp(_c1: _c0 for (_c0, _c1) in enumerate(P0.lru))[_c0]")
     else:
         elts = ("Sub(Sub(len(P0.lru), 1), P0.lru.index(_c0))", "Sub(Sub(P0.associativity, 1), P0.lru.index(_c0))")
     ok = len(got) == 1 and got[0] in {f"ListComp({e} for _c0 in {i})" for e in elts for i in its}
